@@ -2,6 +2,7 @@
 package tbatch
 
 import (
+	"encoding/base64"
 	"encoding/json"
 	"fmt"
 	"os"
@@ -22,6 +23,22 @@ type Job struct {
 	Bufio         int       `json:"bufio,omitempty"` // 1..3: render into the runner's long-lived bufio.Writer number Bufio
 	GC            bool      `json:"gc,omitempty"`    // empty the sync.Pools first
 	ToGoHTML      bool      `json:"to_go_html,omitempty"`
+	B64           bool      `json:"b64,omitempty"` // Args.S1, S2, XS are base64 (byte-exact transport)
+}
+
+// Bytes returns a job without faults whose string arguments reach the program byte for byte
+// (invalid UTF-8, NUL and CR included).
+func Bytes(k int, a tgen.Args) Job {
+	enc := func(s string) string { return base64.StdEncoding.EncodeToString([]byte(s)) }
+	b := a
+	b.S1, b.S2 = enc(a.S1), enc(a.S2)
+	b.XS = nil
+	for _, x := range a.XS {
+		b.XS = append(b.XS, enc(x))
+	}
+	j := Plain(k, b)
+	j.B64 = true
+	return j
 }
 
 // Plain returns a job without faults.
